@@ -368,18 +368,18 @@ theorem stream_never_data (ext : Ext) (c : Consume) (fa : Option Nat) (d d' : De
     (res : Out Bytes) (h : streamEntryC ext c fa d = (.ok (some (f, res)), d')) :
     f.encrypted = false ∧ f.usingDataDescriptor = false ∧ f.method.decodable = true := by
   unfold streamEntryC at h
-  obtain ⟨hd, d1, h1, h2⟩ := M.bind_ok_inv h
+  obtain ⟨hd, d1, h1, h2⟩ := M.bind_ok_elim h
   cases hd with
-  | none => cases M.pure_ok_inv h2
+  | none => cases M.pure_ok_eq h2
   | some f0 =>
-    obtain ⟨dv, d2, _, h3⟩ := M.bind_ok_inv h2
-    obtain ⟨ne, d3, _, h4⟩ := M.bind_ok_inv h3
-    obtain ⟨_, d4, _, h5⟩ := M.bind_ok_inv h4
+    obtain ⟨dv, d2, _, h3⟩ := M.bind_ok_elim h2
+    obtain ⟨ne, d3, _, h4⟩ := M.bind_ok_elim h3
+    obtain ⟨_, d4, _, h5⟩ := M.bind_ok_elim h4
     have hf : f0 = f := by
       obtain ⟨n, eo⟩ := ne
       cases eo with
-      | none => exact congrArg Prod.fst (Option.some.inj (M.pure_ok_inv h5))
-      | some x => exact congrArg Prod.fst (Option.some.inj (M.pure_ok_inv h5))
+      | none => exact congrArg Prod.fst (Option.some.inj (M.pure_ok_eq h5))
+      | some x => exact congrArg Prod.fst (Option.some.inj (M.pure_ok_eq h5))
     rw [← hf]
     exact streamHeader_some_sound fa d d1 f0 h1
 
